@@ -366,3 +366,11 @@ def replay(spec):
         if np.abs(zf - wantf[:rows]).max() > 1e-3:
             fails.append('z for a measured position 30 m away differs from predicted - measured in NED metres by %.3g m (altitude %.0f m)' % (np.abs(zf - wantf[:rows]).max(), pva.alt))
     return {'violated': bool(fails), 'detail': fails}
+
+
+RIM = {'lat': -84.6, 'lon': 150.0, 'alt': 15000.0, 'VN': 250.0, 'VE': -200.0, 'VD': 5.0, 'roll': 120.0, 'pitch': -60.0, 'heading': -170.0}
+
+
+def FALLBACK(tier):
+    """numeric oracle specs put to the compiled code when the symbolic run is inconclusive (main.py)"""
+    return [{'check': 'H', 'point': p, 'params': {'wa': wa, 'rates': rt, 'cls': c}} for wa in (True, False) for rt in (True, False) for c in CLASSES for p in ({}, RIM)] + [{'check': 'sim', 'point': {}}] + [{'check': 'sequence', 'point': {}, 'params': {'wa': True, 'rates': True, 'cls': c}} for c in CLASSES]
